@@ -50,7 +50,13 @@ def insn_st(isa, names):
     )
 
 
-def block_st(isa, cfg, data_ok=True, only_data=False):
+_CFI_EV = st.sampled_from(["S", "S", "S", "Sp", "E", "E", "ADJ+", "ADJ+", "ADJ-", "OFF", "REM", "REM", "RES", "RES",
+                            "DEF", "REG"])
+_CFI_ITEM = st.fixed_dictionaries({"i": st.sampled_from([0, 0, 0, 1, 2, 3, 99, 99]),
+                                   "ev": st.lists(_CFI_EV, min_size=1, max_size=3)})
+
+
+def block_st(isa, cfg, data_ok=True, only_data=False, cfi=False):
     ords = _ord_names(isa)
     terms = _term_names(isa) if cfg else []
     maxi = 4
@@ -63,6 +69,7 @@ def block_st(isa, cfg, data_ok=True, only_data=False):
         "fn": st.sampled_from([None, 0, 0, 0, 1, 1, 2, 3]),
         "entry": st.booleans(),
         "notes": st.lists(st.integers(0, 40), max_size=4),
+        **({"cfi": st.lists(_CFI_ITEM, max_size=3)} if cfi else {}),
     })
     unit = st.fixed_dictionaries({
         "bytes": st.lists(st.integers(0, 255), min_size=1, max_size=4),
@@ -83,18 +90,20 @@ def block_st(isa, cfg, data_ok=True, only_data=False):
     return st.one_of(code, code, code, data)
 
 
-def patch_st(isa, cfg, data_ok=True):
+def patch_st(isa, cfg, data_ok=True, cfi=False):
     ords = _ord_names(isa)
     terms = [n for n in _term_names(isa) if I.table(isa)[n].patch] if cfg else []
     toks = [insn_st(isa, ords)] * 4
+    if cfi:
+        toks += [st.fixed_dictionaries({"cfi": st.sampled_from(["adj+", "adj+", "adj-", "rem", "res"])})] * 2
     if terms:
         toks.append(insn_st(isa, terms))
     toks.append(st.fixed_dictionaries({"lab": st.integers(0, 2), "temp": st.booleans()}))
     return st.fixed_dictionaries({"toks": st.lists(st.one_of(*toks), min_size=1, max_size=5)})
 
 
-def edit_st(isa, cfg):
-    p = patch_st(isa, cfg)
+def edit_st(isa, cfg, cfi=False):
+    p = patch_st(isa, cfg, cfi=cfi)
     cb = st.sampled_from([True, True, True, False])
     ins = st.fixed_dictionaries({"op": st.just("insert"), "cb": cb, "b": _small, "i": st.sampled_from([0, 0, 1, 2, 3, 99]), "patch": p})
     rep = st.fixed_dictionaries({"op": st.just("replace"), "cb": cb, "b": _small, "i": st.integers(0, 4),
@@ -114,13 +123,13 @@ def scope_edit_st(isa):
                                   "pos": st.sampled_from(["entry", "exit"]), "b": _small, "patch": p})
 
 
-def case_st(tier, pairs=None, cfg=True, max_edits=None, min_edits=1, scopes=False):
+def case_st(tier, pairs=None, cfg=True, max_edits=None, min_edits=1, scopes=False, cfi=False):
     pairs = pairs or I.PAIRS
     nb = 6 if tier == "quick" else 10
     ne = max_edits or (5 if tier == "quick" else 9)
 
     def build(pair):
-        key = (pair, tier, cfg, ne, min_edits, scopes)
+        key = (pair, tier, cfg, ne, min_edits, scopes, cfi)
         if key not in _ST_CACHE:
             _ST_CACHE[key] = _build(pair)
         return _ST_CACHE[key]
@@ -128,7 +137,7 @@ def case_st(tier, pairs=None, cfg=True, max_edits=None, min_edits=1, scopes=Fals
     def _build(pair):
         isa, fmt = pair
         use_cfg = cfg and isa != "mips32"
-        blk = block_st(isa, use_cfg)
+        blk = block_st(isa, use_cfg, cfi=cfi)
         sec0 = st.fixed_dictionaries({"name": st.just(".text"), "blocks": st.lists(blk, min_size=1, max_size=nb)})
         datablk = block_st(isa, use_cfg, only_data=True)
         sec1 = st.fixed_dictionaries({"name": st.just(".data"), "blocks": st.lists(datablk, min_size=1, max_size=3)})
@@ -140,8 +149,9 @@ def case_st(tier, pairs=None, cfg=True, max_edits=None, min_edits=1, scopes=Fals
             "sections": secs,
             "funcs": st.sampled_from([True, True, True, False]),
             "entry": st.one_of(st.none(), _small),
+            "cfi": st.just(bool(cfi)),
             "edits": st.lists((st.one_of(edit_st(isa, use_cfg), edit_st(isa, use_cfg), scope_edit_st(isa))
-                               if scopes else edit_st(isa, use_cfg)), min_size=min_edits, max_size=ne),
+                               if scopes else edit_st(isa, use_cfg, cfi=cfi)), min_size=min_edits, max_size=ne),
         })
 
     return st.sampled_from(pairs).flatmap(build)
@@ -171,6 +181,35 @@ class Label:
     binding: str  # start | end | patch
     origin: tuple = ()
     temp: bool = False
+
+
+@dataclasses.dataclass
+class Cfi:
+    """One CFI directive of the listing."""
+    name: str
+    args: list
+    sym: Optional[str] = None
+    origin: tuple = ()
+
+
+CFI_EVENTS = {
+    "S": [(".cfi_startproc", [], None), (".cfi_def_cfa", [7, 8], None), (".cfi_offset", [16, -8], None)],
+    "Sp": [(".cfi_startproc", [], None), (".cfi_personality", [0x9B], "ext0"), (".cfi_lsda", [0x1B], "ext1"),
+           (".cfi_def_cfa", [7, 8], None), (".cfi_offset", [16, -8], None)],
+    "E": [(".cfi_endproc", [], None)],
+    "ADJ+": [(".cfi_adjust_cfa_offset", [8], None)],
+    "ADJ-": [(".cfi_adjust_cfa_offset", [-8], None)],
+    "OFF": [(".cfi_offset", [6, -16], None)],
+    "REM": [(".cfi_remember_state", [], None)],
+    "RES": [(".cfi_restore_state", [], None)],
+    "DEF": [(".cfi_def_cfa_offset", [16], None)],
+    "REG": [(".cfi_def_cfa_register", [6], None)],
+}
+PATCH_CFI = {
+    "adj+": (".cfi_adjust_cfa_offset", [8]), "adj-": (".cfi_adjust_cfa_offset", [-8]),
+    "rem": (".cfi_remember_state", []), "res": (".cfi_restore_state", []),
+    "undef": (".cfi_undefined", [3]),
+}
 
 
 @dataclasses.dataclass
@@ -340,10 +379,78 @@ class Case:
                     continue
                 u.notes[(table, key)] = {0: (f"c{g}_{k}" if table == "comments" else 1 + nv % 5)}
             self.blocks.append(blk)
+        self.cfi: Dict[Tuple[int, int], list] = {}
+        if spec.get("cfi"):
+            self._build_cfi(raw_blocks)
         ent = spec.get("entry")
         codeblocks = [b.gidx for b in self.blocks if b.code]
         self.entry_block = codeblocks[ent % len(codeblocks)] if (ent is not None and codeblocks) else None
         self._norm_edits(spec.get("edits", []), allow_after_full_delete)
+
+    def _build_cfi(self, raw_blocks):
+        """Turn the per-block CFI events into a well-formed directive map
+        (startproc/endproc alternate, procedures never span data or section
+        ends, restore_state only with a non-empty stack)."""
+        for si, (name, idxs) in enumerate(self.sections):
+            inproc = False
+            depth = 0
+            last_code = None
+            started_units = 0
+            start_ref = None
+
+            def close():
+                nonlocal inproc
+                if started_units:
+                    self.cfi.setdefault((last_code, len(self.blocks[last_code].units)), []).extend(CFI_EVENTS["E"])
+                elif start_ref is not None:
+                    del start_ref[0][start_ref[1]:]   # drop the empty procedure
+                inproc = False
+
+            for g in idxs:
+                b = self.blocks[g]
+                if not b.code:
+                    if inproc and last_code is not None:
+                        close()
+                    continue
+                last_code = g
+                evs = {}
+                for item in raw_blocks[g][1].get("cfi", []) or []:
+                    i = min(item["i"], len(b.units))
+                    evs.setdefault(i, []).extend(item["ev"])
+                nu = len(b.units)
+                for i in range(nu + 1):
+                    for ev in evs.get(i, []):
+                        if ev not in CFI_EVENTS:
+                            raise BadSpec(f"cfi event {ev}")
+                        out = self.cfi.setdefault((g, i), [])
+                        if ev in ("S", "Sp"):
+                            if inproc:
+                                if not started_units:
+                                    continue  # would close an empty procedure
+                                out.extend(CFI_EVENTS["E"])
+                            out.extend(CFI_EVENTS[ev])
+                            inproc, depth, started_units = True, 0, 0
+                            start_ref = (out, len(out) - len(CFI_EVENTS[ev]))
+                        elif not inproc:
+                            continue
+                        elif ev == "E":
+                            if not started_units:
+                                continue
+                            out.extend(CFI_EVENTS["E"])
+                            inproc = False
+                        elif ev == "RES":
+                            if depth > 0:
+                                depth -= 1
+                                out.extend(CFI_EVENTS[ev])
+                        else:
+                            if ev == "REM":
+                                depth += 1
+                            out.extend(CFI_EVENTS[ev])
+                    if i < nu and inproc:
+                        started_units += 1
+            if inproc and last_code is not None:
+                close()
+        self.cfi = {k: v for k, v in self.cfi.items() if v}
 
     def _raw_block(self, e):
         if e.get("op") == "scope":
@@ -502,9 +609,30 @@ class Case:
         if not host.code:
             # code patches in data blocks: ordinary instructions only (control
             # flow into or out of data is outside the modelled domain)
-            toks = [t for t in toks if "lab" not in t and self.tab[t["t"]].kind == "ord"]
+            toks = [t for t in toks if "lab" not in t and "cfi" not in t and self.tab[t["t"]].kind == "ord"]
             own = []
-        if not any("lab" not in t for t in toks):
+        # balance the patch's own CFI
+        if any("cfi" in t for t in toks):
+            bal, stack = [], []
+            for t in toks:
+                if "cfi" in t:
+                    c = t["cfi"]
+                    if c in ("adj+", "rem"):
+                        stack.append(c)
+                    elif c == "adj-":
+                        if not stack or stack[-1] != "adj+":
+                            continue
+                        stack.pop()
+                    elif c == "res":
+                        if not stack or stack[-1] != "rem":
+                            continue
+                        stack.pop()
+                    else:
+                        continue
+                bal.append(t)
+            # properly nested: close what is still open, innermost first
+            toks = bal + [{"cfi": "adj-" if c == "adj+" else "res"} for c in reversed(stack)]
+        if not any("lab" not in t and "cfi" not in t for t in toks):
             toks = list(toks) + [{"t": "nop", "sym": 0, "imm": 0}]
         for k, t in enumerate(toks):
             if "lab" in t:
@@ -514,6 +642,11 @@ class Case:
                 defined.add(nm)
                 items.append(Label(nm, "patch", ("patch", ed.reg, k), temp=bool(t.get("temp"))))
                 lines.append(f"{nm}:")
+                continue
+            if "cfi" in t:
+                nm, args = PATCH_CFI[t["cfi"]]
+                items.append(Cfi(nm, list(args), None, ("patch", ed.reg, k)))
+                lines.append(nm + (" " + ", ".join(str(a) for a in args) if args else ""))
                 continue
             tpl = self.tab.get(t["t"])
             if tpl is None or not tpl.patch:
@@ -573,6 +706,7 @@ class Expected:
         self.insns: List[List[ExpInsn]] = []
         self.patch_labels: Dict[str, tuple] = {}
         self.block_start: Dict[int, tuple] = {}
+        self.streams: List[list] = []
         for si, (name, idxs) in enumerate(c.sections):
             items = []
             for g in idxs:
@@ -580,21 +714,41 @@ class Expected:
                 items.append(("blockstart", g))
                 for n in b.labels:
                     items.append(Label(n, "start", ("orig", g)))
+                def cfi_split(i):
+                    ds = [Cfi(n_, list(a_), s_, ("orig", g, i)) for (n_, a_, s_) in c.cfi.get((g, i), [])]
+                    k = next((j for j, d in enumerate(ds) if d.name == ".cfi_endproc"), len(ds))
+                    return ds[:k], ds[k:]
+
                 for i, u in enumerate(b.units):
+                    keep, move = cfi_split(i)
+                    items.extend(keep)
                     for ed, pitems in pre.get((g, i), []):
+                        items.append(("patchstart", ed.reg, g))
                         items.extend(pitems)
+                    items.extend(move)
                     if not u.deleted:
                         items.append(u)
+                keep, move = cfi_split(len(b.units))
+                items.extend(keep)
                 for ed, pitems in pre.get((g, len(b.units)), []):
+                    items.append(("patchstart", ed.reg, g))
                     items.extend(pitems)
+                items.extend(move)
                 for n in b.end_labels:
                     items.append(Label(n, "end", ("orig", g)))
             pos = 0
             data = bytearray()
             insns = []
+            stream = []
             for it in items:
                 if isinstance(it, tuple):
-                    self.block_start[it[1]] = (si, pos)
+                    if it[0] == "blockstart":
+                        self.block_start[it[1]] = (si, pos)
+                    else:
+                        stream.append(it)
+                    continue
+                if isinstance(it, Cfi):
+                    stream.append(("cfi", pos, it))
                     continue
                 if isinstance(it, Label):
                     if it.binding == "patch":
@@ -605,8 +759,10 @@ class Expected:
                         self.labels[it.name] = ("pos", si, pos)
                 else:
                     insns.append(ExpInsn(si, pos, it))
+                    stream.append(("insn", pos, it))
                     data += it.data
                     pos += len(it.data)
+            self.streams.append(stream)
             self.sec_items.append(items)
             self.sec_bytes.append(bytes(data))
             self.insns.append(insns)
@@ -712,6 +868,17 @@ def build(case: Case, *, cfi=None) -> Built:
         m.aux_data["functionBlocks"] = gtirb.AuxData(fb, "mapping<UUID,set<UUID>>")
         m.aux_data["functionEntries"] = gtirb.AuxData(fe, "mapping<UUID,set<UUID>>")
         m.aux_data["functionNames"] = gtirb.AuxData(fn, "mapping<UUID,UUID>")
+    if c.cfi:
+        from gtirb_rewriting._auxdata import NULL_UUID
+
+        table = {}
+        for (g, i), ds in c.cfi.items():
+            b = c.blocks[g]
+            disp = b.uoffs[i] if i < len(b.units) else b.size
+            table[gtirb.Offset(out.blocks[g], disp)] = [
+                (n_, list(a_), (out.symbols[s_] if s_ else NULL_UUID)) for (n_, a_, s_) in ds]
+        m.aux_data["cfiDirectives"] = gtirb.AuxData(
+            table, "mapping<Offset,sequence<tuple<string,sequence<int64_t>,UUID>>>")
     _derive_cfg(out)
     if c.spec.get("aux"):
         _extra_aux(out, c.spec["aux"])
@@ -1079,7 +1246,7 @@ def label_on_proxy_deleted_neighbour(case: Case) -> bool:
     return False
 
 
-def trailing_label_then_insert(case: Case) -> bool:
+def trailing_label_then_insert(case: Case, cfi=False) -> bool:
     """Signature of finding C02-trailing-patch-label-at-block-end: a patch that
     ends in a label is inserted at the very end of a block and a later
     registered patch is inserted at the same place (the label becomes an
@@ -1094,6 +1261,9 @@ def trailing_label_then_insert(case: Case) -> bool:
         eds.sort(key=lambda e: (e.i, e.reg))  # application order
         for ed in eds[:-1]:
             items, _ = case.patch_units(ed)
+            if cfi and items and isinstance(items[-1], Cfi):
+                return True   # a trailing CFI directive behaves like a trailing label
+            items = [x for x in items if not isinstance(x, Cfi)]
             if items and isinstance(items[-1], Label):
                 return True
     return False
